@@ -242,6 +242,8 @@ def check_c03(tier, seed):
         ("atleast_1d", lambda xp, a: xp.atleast_1d(a), np.float32(2.0)), ("where", lambda xp, a: xp.where(a > 2, a, -a), y), ("clip", lambda xp, a: xp.clip(a, 1, 4), y), ("clip-f", lambda xp, a: xp.clip(a, 0.2, 0.6), x),
         ("matmul", lambda xp, a: xp.matmul(a, a.T), y.astype(np.float32)), ("einsum", lambda xp, a: xp.einsum("ij,kj->ik", a, a), y.astype(np.float32)), ("getitem", lambda xp, a: a[::-1, [0, 2]], y), ("getitem-bool", lambda xp, a: a[a > 2], y),
         ("T", lambda xp, a: a.T, x), ("norm", lambda xp, a: xp.linalg.norm(a, axis=-1), x), ("flatten", lambda xp, a: a.flatten(), y.T),
+        ("clip[out]", lambda xp, a: xp.clip(a, 1, 4, out=np.empty(a.shape, a.dtype)), y), ("clip[min-only,out]", lambda xp, a: xp.clip(a, 1, None, out=np.empty(a.shape, a.dtype)), y),
+        ("clip[max-only,out]", lambda xp, a: xp.clip(a, None, 4, out=np.empty(a.shape, a.dtype)), y), ("clip[array-bounds,out]", lambda xp, a: xp.clip(a, np.full(a.shape[-1:], 1, a.dtype), 4, out=np.empty(a.shape, a.dtype)), y),
         ("sinc", lambda xp, a: xp.sinc(a), x), ("any", lambda xp, a: xp.any(a > 2, axis=0), y), ("argmax", lambda xp, a: xp.argmax(a, axis=1), y), ("argmin", lambda xp, a: xp.argmin(a), y),
     ]
     for nm, f, a in manip:
